@@ -75,6 +75,12 @@ func New(open func() (ReadAtCloser, error), gracePeriod time.Duration) *SharedFi
 // the pool evicts or [SharedFile.Close] is called. Pass nil for
 // pool to disable pooling (equivalent to [New]).
 func NewWithPool(open func() (ReadAtCloser, error), gracePeriod time.Duration, pool *fdpool.Pool) *SharedFile {
+	// A no-op pool (capacity <= 0) never evicts; keeping it would
+	// bypass the grace timer and leave idle descriptors open for
+	// good. Treat it as "no pool" so the timer governs the FD.
+	if pool != nil && pool.Stats().Capacity <= 0 {
+		pool = nil
+	}
 	return &SharedFile{open: open, gracePeriod: gracePeriod, pool: pool}
 }
 
